@@ -215,6 +215,16 @@ class Ctx:
                 rf = sl.check()
             except z3.Z3Exception:
                 rt = rf = z3.unknown  # internal solver failure: both outcomes stay possible
+            if (rt == z3.unsat or rf == z3.unsat) and os.environ.get("PYVC_TRUST_Z3") != "1":
+                cone = cone_of_influence(self.pc_raw, ct)
+                from .solve import any_quantifier
+
+                if any_quantifier(cone + [ct]):
+                    # an `unsat` of z3 5.1.0 on a quantified query prunes a path only when confirmed
+                    if rt == z3.unsat and not self._confirmed_unsat(cone + [ct]):
+                        rt = z3.unknown
+                    if rf == z3.unsat and not self._confirmed_unsat(cone + [cf]):
+                        rf = z3.unknown
             self.ex.solver_secs += time.time() - t0
             got = (rt != z3.unsat, rf != z3.unsat)
             self.ex.feas_cache[key] = got
@@ -249,9 +259,32 @@ class Ctx:
             return False
         sl = z3.Solver()
         sl.set("timeout", self.ex.feas_timeout_ms)
-        sl.add(cone_of_influence(self.pc_raw, c))
+        cone = cone_of_influence(self.pc_raw, c)
+        sl.add(cone)
         sl.add(z3.Not(c))
-        return sl.check() == z3.unsat
+        try:
+            r = sl.check()
+        except z3.Z3Exception:
+            return False
+        if r == z3.unsat and os.environ.get("PYVC_TRUST_Z3") != "1":
+            from .solve import any_quantifier
+
+            if any_quantifier(cone + [c]) and not self._confirmed_unsat(cone + [z3.Not(c)]):
+                return False
+        return r == z3.unsat
+
+    def _confirmed_unsat(self, formulas, budget_s=6):
+        """independent confirmation (z3 4.8.12, then cvc5) of an `unsat` on a quantified query"""
+        from .solve import confirm_unsat
+
+        key = tuple(sorted(f.get_id() for f in formulas))
+        cache = self.ex.__dict__.setdefault("confirm_cache", {})
+        if key not in cache:
+            t0 = time.time()
+            cache[key] = confirm_unsat(dump_smt2(formulas), budget_s=budget_s)[0]
+            self.ex.__dict__["confirm_secs"] = self.ex.__dict__.get("confirm_secs", 0.0) + time.time() - t0
+            self.ex.__dict__["confirm_calls"] = self.ex.__dict__.get("confirm_calls", 0) + 1
+        return cache[key]
 
     def is_sat(self):
         t0 = time.time()
@@ -260,6 +293,11 @@ class Ctx:
         except z3.Z3Exception:
             self._rebuild_solver()
             r = z3.unknown
+        if r == z3.unsat and os.environ.get("PYVC_TRUST_Z3") != "1":
+            from .solve import any_quantifier
+
+            if any_quantifier(self.pc_raw) and not self._confirmed_unsat(list(self.pc_raw)):
+                r = z3.unknown
         self.ex.solver_secs += time.time() - t0
         return r != z3.unsat
 
@@ -274,10 +312,16 @@ class Ctx:
         if vals is None:
             sl = z3.Solver()
             sl.set("timeout", self.ex.feas_timeout_ms)
-            sl.add(cone_of_influence(self.pc_raw, s))
-            vals = self._enumerate(sl, s, limit)
+            cone_c = cone_of_influence(self.pc_raw, s)
+            sl.add(cone_c)
+            from .solve import any_quantifier
+
+            trust = os.environ.get("PYVC_TRUST_Z3") == "1"
+            # `no further value` is an unsat answer: on quantified queries it is not believed (z3 5.1.0),
+            # the enumeration then falls back to the quantifier-free arithmetic relaxation below
+            vals = self._enumerate(sl, s, limit, trust_unsat=trust or not any_quantifier(cone_c))
             if vals is None:
-                vals = self._enumerate(self.solver, s, limit)
+                vals = self._enumerate(self.solver, s, limit, trust_unsat=trust or not any_quantifier(self.pc_raw))
             if vals is None and os.environ.get("PYVC_DEBUG"):
                 import sys as _sys
 
@@ -313,15 +357,20 @@ class Ctx:
         self.assume(s == vals[i])
         return vals[i]
 
-    def _enumerate(self, solver, s, limit):
+    def _enumerate(self, solver, s, limit, trust_unsat=True):
         vals = []
         solver.push()
         try:
             while len(vals) <= limit:
-                r = solver.check()
+                try:
+                    r = solver.check()
+                except z3.Z3Exception:
+                    return None
                 if r == z3.unknown:
                     return None
                 if r != z3.sat:
+                    if not trust_unsat:
+                        return None
                     break
                 v = solver.model().eval(s, model_completion=True).as_long()
                 vals.append(v)
@@ -353,6 +402,16 @@ class Ctx:
                 r = z3.unknown
             if r == z3.unsat:
                 ob.status, ob.solver = "discharged", "z3"
+                from .solve import any_quantifier, confirm_unsat
+
+                if os.environ.get("PYVC_TRUST_Z3") != "1" and any_quantifier(self.pc_raw + [goal]):
+                    # z3 5.1.0's `unsat` on quantified queries is not believed on its own
+                    ok_c, by, dis = confirm_unsat(dump_smt2(cone_of_influence(self.pc_raw, goal) + [z3.Not(goal)]), budget_s=max(20, self.ex.oblig_timeout_ms // 500))
+                    if ok_c:
+                        ob.solver = "z3+" + by
+                    else:
+                        ob.status, ob.solver = "unknown", "z3-unsat-unconfirmed" + ("(disagreement)" if dis else "")
+                        r = z3.unknown
             elif r == z3.sat:
                 ob.status, ob.solver = "refuted", "z3"
                 ob.z3model = s.model()
